@@ -443,7 +443,25 @@ def h_homog(ctx, name='sma', n=6, period=3):
     ctx.event('homogeneity-checked')
 
 
-JOBFN = {'h_ref': h_ref, 'h_ma': h_ma, 'h_range': h_range, 'h_homog': h_homog}
+def h_invariant(ctx, name='cci', n=4, period=2):
+    """dimensionless oscillators do not change when every price is multiplied by the same factor, from tiny to huge prices"""
+    rows, m = indh.sym_matrix(ctx, n)
+    lam = ctx.real('lambda', 1e-10, 1e8)
+    rows2 = [[r[0], r[1] * lam, r[2] * lam, r[3] * lam, r[4] * lam, r[5]] for r in rows]
+    from ..engine.npshim import ObjArr
+    m2 = S.make_candles(rows2)
+    m2 = m2.view(ObjArr) if m2.dtype == object else m2
+    a = _call(name, m, period=period)
+    b = _call(name, m2, period=period)
+    for i in range(n):
+        if indh.is_nan(a[i]) or indh.is_nan(b[i]):
+            ctx.prove(indh.is_nan(a[i]) and indh.is_nan(b[i]), 'C15:oscillator-is-scale-invariant', {'indicator': name, 'i': i, 'kind': 'nan-pattern'})
+            continue
+        ctx.prove(near(b[i], a[i], 1e-6), 'C15:oscillator-is-scale-invariant', {'indicator': name, 'i': i})
+    ctx.event('invariance-checked')
+
+
+JOBFN = {'h_ref': h_ref, 'h_ma': h_ma, 'h_range': h_range, 'h_homog': h_homog, 'h_invariant': h_invariant}
 
 
 def _jobs(tier):
@@ -472,6 +490,8 @@ def _jobs(tier):
         jobs.append(Job('range_%s' % nm, h_range, {'name': nm, 'n': 5 if tier == 'quick' else 7, 'period': 2 if tier == 'quick' else 3}, dict(opts)))
     for nm in ('sma', 'ema', 'wma', 'dema', 'tema', 'trima', 'smma', 'wilders', 'zlema', 'hma'):
         jobs.append(Job('homog_%s' % nm, h_homog, {'name': nm, 'n': 6, 'period': 2}, dict(opts)))
+    for nm in ('cci', 'rsi', 'willr', 'cmo', 'mfi'):
+        jobs.append(Job('invariant_%s' % nm, h_invariant, {'name': nm, 'n': 4, 'period': 2}, dict(opts)))
     return jobs
 
 
@@ -505,7 +525,7 @@ def signature(v):
 
 
 def make_witness(v):
-    fn = {'ref': 'h_ref', 'ma': 'h_ma', 'range': 'h_range', 'homog': 'h_homog'}[v['job'].split('_')[0]]
+    fn = {'ref': 'h_ref', 'ma': 'h_ma', 'range': 'h_range', 'homog': 'h_homog', 'invariant': 'h_invariant'}[v['job'].split('_')[0]]
     return {'fn': fn, 'kwargs': v['bounds'], 'label': v['label'], 'model': v['model'], 'info': v.get('info')}
 
 
